@@ -40,7 +40,7 @@ type Pools struct {
 
 var topSegs = []string{"assets", "expenses", "petty cash", "income", "liabilities", "equity", "Assets", "Expenses", "misc", "x", "активы", "projects"}
 var subSegs = []string{"cash", "food", "bank checking", "card1", "чек", "наличные", "opening balances", "Salary", "a", "B2", "y😀z", "rent", "café", "long account segment name"}
-var symPool = []string{"$", "€", "EUR", "USD", "AAPL", "AB C", "ACME Inc.", "£"}
+var symPool = []string{"$", "€", "EUR", "USD", "AAPL", "AB C", "ACME Inc.", "£", "🍎 X"}
 var payeePool = []string{"shop", "Whole Foods", "café", "Ашан", "grocery store", "x", "landlord", "bakery 😀"}
 var tagPool = []string{"k", "trip", "Project-1", "a_b", "type"}
 var tagVals = []string{"", "v", "two words", "2024-01-02", "é😀", "x1"}
@@ -85,10 +85,10 @@ func GenPools(t *rapid.T, p *Profile) *Pools {
 			}
 		}
 	}
-	if p.off("text.nonascii") {
+	if p.off("text.nonascii") || p.off("text.nonbmp") {
 		var q []string
 		for _, s := range pool {
-			if asciiOnly(s) == s {
+			if asciiOnly(s) == s || (!p.off("text.nonascii") && !strings.Contains(s, "🍎")) {
 				q = append(q, s)
 			}
 		}
@@ -550,6 +550,7 @@ type WSOpts struct {
 	MinFiles, MaxFiles int
 	Journal            JournalOpts
 	AllReachable       bool // every file is reachable from main.journal
+	Islands            bool // sometimes main.journal includes nothing while the other files form a tree of their own
 }
 
 func relFrom(from, to string) string {
@@ -583,9 +584,13 @@ func GenWorkspace(t *rapid.T, p *Profile, pools *Pools, o WSOpts) *Workspace {
 	for i := 0; i < n; i++ {
 		ws.Files = append(ws.Files, WSFile{Rel: WSNames[i], Journal: GenJournal(t, p, pools, jo)})
 	}
+	island := o.Islands && n >= 3 && rapid.IntRange(0, 3).Draw(t, "island") == 0
 	for j := 1; j < n; j++ {
 		parents := 0
 		for i := 0; i < j; i++ {
+			if island && i == 0 {
+				continue
+			}
 			pick := rapid.IntRange(0, 2).Draw(t, "edge") == 0
 			if i == j-1 && parents == 0 && (o.AllReachable || rapid.IntRange(0, 3).Draw(t, "reach") != 0) {
 				pick = true
